@@ -612,3 +612,44 @@ func (fc *flowCtx) errPropagated(fn *ssa.Function, call ssa.Instruction, e ssa.V
 	}
 	return errOutcome{true, "tested against nil; the non-nil branch only reaches error returns", call, nil}
 }
+
+// pathAvoidingEdges searches a path from the function entry to an instruction satisfying target that never takes a CFG
+// edge satisfying cutEdge and never passes an instruction satisfying avoid; diverging calls end a path. Returns the
+// blocks' terminators as witness, or nil.
+func (fc *flowCtx) pathAvoidingEdges(fn *ssa.Function, target func(ssa.Instruction) bool, avoid func(ssa.Instruction) bool, cutEdge func(pred, succ *ssa.BasicBlock) bool) []ssa.Instruction {
+	seen := map[*ssa.BasicBlock]bool{}
+	var witness []ssa.Instruction
+	var dfs func(b *ssa.BasicBlock, trail []ssa.Instruction) bool
+	dfs = func(b *ssa.BasicBlock, trail []ssa.Instruction) bool {
+		if seen[b] {
+			return false
+		}
+		seen[b] = true
+		for _, ins := range b.Instrs {
+			if target(ins) {
+				witness = append(append([]ssa.Instruction{}, trail...), ins)
+				return true
+			}
+			if avoid != nil && avoid(ins) {
+				return false
+			}
+			if fc.diverges(ins) {
+				return false
+			}
+		}
+		last := b.Instrs[len(b.Instrs)-1]
+		for _, s := range b.Succs {
+			if cutEdge != nil && cutEdge(b, s) {
+				continue
+			}
+			if dfs(s, append(append([]ssa.Instruction{}, trail...), last)) {
+				return true
+			}
+		}
+		return false
+	}
+	if dfs(fn.Blocks[0], nil) {
+		return witness
+	}
+	return nil
+}
